@@ -17,49 +17,12 @@ proved over `runG` — the existing theorems over `run` are untouched.
 -/
 namespace NA.C19
 
-/-- Half a compile of the tree of HEAD into `next/code`. -/
-def spoilDir (g : G) (d : Dir) : Dir :=
-  match d.head with
-  | some h =>
-    let t := (commitAt g.store h).tree
-    { d with built := false, dirty := true, code := t, mixed := d.mixed || (d.dirty && d.code != t) }
-  | none => { d with built := false, dirty := true }
-
-def spoilG (g : G) : G := { g with next := g.next.map (spoilDir g) }
-
 @[simp] theorem spoilDir_head (g : G) (d : Dir) : (spoilDir g d).head = d.head := by
   unfold spoilDir; split <;> simp_all
 
 @[simp] theorem spoilG_nextHead (g : G) : (spoilG g).nextHead = g.nextHead := by
   unfold spoilG G.nextHead
   cases g.next <;> simp
-
-theorem release_spoil (g : G) (pid : Nat) (hl : g.lock = some pid) :
-    release (spoilG g) pid = { spoilG g with lock := none } := by
-  unfold release; simp [spoilG, hl]
-
-inductive EventG
-  | base (e : Event)
-  | killGroup (pid : Nat)
-  deriving DecidableEq, Repr
-
-/-- does the group kill hit a running compiler that holds the lock? -/
-def groupHits (prog : Prog) (s : State) (pid : Nat) : Option Proc :=
-  match findProc s.procs pid with
-  | some p =>
-    match instrAt prog p.pc with
-    | some i => if p.alive && i.cmd == .compile && s.g.lock == some pid && !s.dying.contains pid then some p else none
-    | none => none
-  | none => none
-
-def stepG (prog : Prog) (s : State) : EventG → State
-  | .base e => step prog s e
-  | .killGroup pid =>
-    match groupHits prog s pid with
-    | some p => { s with g := { spoilG s.g with lock := none }, procs := replaceProc s.procs { p with alive := false, exit := none } }
-    | none => step prog s (.kill pid)
-
-def runG (prog : Prog) (sysEmail : Bool) (es : List EventG) : State := es.foldl (stepG prog) (init sysEmail)
 
 theorem groupHits_some {prog : Prog} {s : State} {pid : Nat} {p : Proc} (h : groupHits prog s pid = some p) :
     p ∈ s.procs ∧ p.pid = pid ∧ p.alive = true ∧ s.g.lock = some pid := by
@@ -86,12 +49,75 @@ theorem inv1_group {ann : Ann safety} {s : State} {pid : Nat} {p : Proc} (hinv :
     (hm : p ∈ s.procs) (hpp : p.pid = pid) (hl : s.g.lock = some pid) :
     Inv1 ann { s with g := { spoilG s.g with lock := none }, procs := replaceProc s.procs { p with alive := false, exit := none } } := by
   obtain ⟨hgi, huniq, hfresh, hprocs⟩ := hinv
-  have hk := inv1_kill_shape huniq hfresh hm
-  refine ⟨⟨hgi.dirs, hgi.cur⟩, hk.1, hk.2, ?_⟩
+  refine ⟨⟨hgi.dirs, hgi.cur⟩, unique_replaceProc huniq, ?_, ?_⟩
+  · intro q hq
+    rcases mem_replaceProc hq with ⟨rfl, _⟩ | ⟨hq1, _⟩
+    · exact hfresh p hm
+    · exact hfresh q hq1
+  · intro q hq hqa
+    rcases mem_replaceProc hq with ⟨rfl, _⟩ | ⟨hq1, hq2⟩
+    · simp at hqa
+    · obtain ⟨b, h1, h2⟩ := hprocs q hq1 hqa
+      exact ⟨b, h1, h2.vacuous hl (by simpa [hpp] using hq2)⟩
+
+theorem quiet_spoil (g : G) : quiet { spoilG g with lock := none } ↔ quiet g := by
+  simp [quiet, spoilG]
+
+theorem inv2_group {ann : Ann numbering} {s : State} {pid : Nat} {p : Proc} (hinv : Inv2 ann s)
+    (hm : p ∈ s.procs) (hpp : p.pid = pid) (hl : s.g.lock = some pid) :
+    Inv2 ann { s with g := { spoilG s.g with lock := none }, procs := replaceProc s.procs { p with alive := false, exit := none } } := by
+  obtain ⟨hdh, hvg, hvp, hn, hprocs⟩ := hinv
+  refine ⟨hdh, ⟨hvg.remote, fun x hx => hvg.head x (by rw [← spoilG_nextHead s.g]; exact hx)⟩, ?_,
+    fun hq => ?_, ?_⟩
+  · intro q hq
+    rcases mem_replaceProc hq with ⟨rfl, _⟩ | ⟨hq1, _⟩
+    · exact ⟨(hvp p hm).base, (hvp p hm).hash⟩
+    · exact ⟨(hvp q hq1).base, (hvp q hq1).hash⟩
+  · have h := hn ((quiet_spoil s.g).mp hq)
+    exact ⟨h.bound, h.incr⟩
+  · intro hqu q hq hqa
+    rcases mem_replaceProc hq with ⟨rfl, _⟩ | ⟨hq1, hq2⟩
+    · simp at hqa
+    · obtain ⟨b, h1, h2⟩ := hprocs ((quiet_spoil s.g).mp hqu) q hq1 hqa
+      exact ⟨b, h1, h2.vacuous hl (by simpa [hpp] using hq2)⟩
+
+theorem inv4_group {ann : Ann code} {s : State} {pid : Nat} {p : Proc} (hinv : Inv4 ann s)
+    (hpp : p.pid = pid) (hl : s.g.lock = some pid) :
+    Inv4 ann { s with g := { spoilG s.g with lock := none }, procs := replaceProc s.procs { p with alive := false, exit := none } } := by
+  obtain ⟨hgi, hprocs⟩ := hinv
+  refine ⟨⟨hgi.dirs, hgi.rpos, fun x hx => hgi.hpos x (by rw [← spoilG_nextHead s.g]; exact hx)⟩, ?_⟩
   intro q hq hqa
   rcases mem_replaceProc hq with ⟨rfl, _⟩ | ⟨hq1, hq2⟩
   · simp at hqa
   · obtain ⟨b, h1, h2⟩ := hprocs q hq1 hqa
     exact ⟨b, h1, h2.vacuous hl (by simpa [hpp] using hq2)⟩
+
+/-- Safety, numbering and code invariants over all histories INCLUDING group kills of the compiler. -/
+theorem inv124_stepG {prog : Prog} {ann1 : Ann safety} {ann2 : Ann numbering} {ann4 : Ann code}
+    (hinh : inhOK prog = true) (hc1 : check safety prog ann1 = true) (hc2 : check numbering prog ann2 = true)
+    (hc4 : check code prog ann4 = true) {s : State}
+    (h : Inv1 ann1 s ∧ Inv2 ann2 s ∧ Inv4 ann4 s) (e : EventG) :
+    Inv1 ann1 (stepG prog s e) ∧ Inv2 ann2 (stepG prog s e) ∧ Inv4 ann4 (stepG prog s e) := by
+  cases e with
+  | base e => exact inv124_step hinh hc1 hc2 hc4 h e
+  | killGroup pid =>
+    simp only [stepG]
+    cases hg : groupHits prog s pid with
+    | none => exact inv124_step hinh hc1 hc2 hc4 h (.kill pid)
+    | some p =>
+      obtain ⟨hm, hpp, _, hl⟩ := groupHits_some hg
+      exact ⟨inv1_group h.1 hm hpp hl, inv2_group h.2.1 hm hpp hl, inv4_group h.2.2 hpp hl⟩
+
+theorem inv124_runG {prog : Prog} {ann1 : Ann safety} {ann2 : Ann numbering} {ann4 : Ann code}
+    (hinh : inhOK prog = true) (hc1 : check safety prog ann1 = true) (hc2 : check numbering prog ann2 = true)
+    (hc4 : check code prog ann4 = true) (se : Bool) (es : List EventG) :
+    Inv1 ann1 (runG prog se es) ∧ Inv2 ann2 (runG prog se es) ∧ Inv4 ann4 (runG prog se es) := by
+  unfold runG
+  have h0 : Inv1 ann1 (init se) ∧ Inv2 ann2 (init se) ∧ Inv4 ann4 (init se) :=
+    ⟨inv1_init hc1 se, inv2_init (prog := prog) se, inv4_init se⟩
+  generalize init se = s0 at h0
+  induction es generalizing s0 with
+  | nil => exact h0
+  | cons e es ih => exact ih _ (inv124_stepG hinh hc1 hc2 hc4 h0 e)
 
 end NA.C19
